@@ -34,6 +34,12 @@ def build():
     u.include("shims/io.rs")
     u_generate.config_types(u)
     u.include("shims/driver_stubs_core.rs")
+    from . import u_find
+    _tmpp = Unit("tmpp")
+    _fr = u_find.find_references(_tmpp)
+    u.raw("verus! {\n")
+    u.stub_of(_fr, note="find_references (unused here)", extra_ensures=["r@ == found(code.spec_bytes(), *config)", "r@.len() <= u32::MAX"])
+    u.raw("}\n")
     u.real_item(common.GEN, r"struct InsertReferencesResult\b", lambda t: common.wrap(common.pub_fields(common.strip_doc(t))), "R7")
     u.include("spec/ids.rs")
     u.include("spec/tree.rs")
